@@ -6,18 +6,26 @@
 //! are checked record by record; save -> load must answer identically.  The fault family
 //! puts a `FaultyStore` under each wrapper (fail-before / fail-after = lost acknowledgement)
 //! and faulty byte streams under save/load.
+//!
+//! Beyond put/get/remove the histories contain `remove_batch`, reconfiguration and maintenance
+//! calls of the concrete type in mid-history (`clear`, cache on/off, write strategy, a rebuilt
+//! Huffman tree, `optimize`, `load_dictionary`, ...), a clone used as an independent second
+//! handle, and the store's own iteration.  One record in five is derived from an earlier
+//! record of the run (the same bytes again, one byte changed, a prefix, an extension); one
+//! bulk build in five has 63..513 short records (around the block sizes of the offset index
+//! and of the rank structure).
 
 use std::collections::{BTreeMap, BTreeSet};
 use std::path::PathBuf;
 use std::sync::{Arc, Mutex};
 use zipora::blob_store::cached_store::CacheWriteStrategy;
 use zipora::blob_store::{
-    BatchBlobStore, BlobStore, CachedBlobStore, DictionaryBlobStore, HuffmanBlobStore, MemoryBlobStore, MixedLenBlobStore, NestLoudsTrieBlobStore, NestLoudsTrieBlobStoreBuilder, PlainBlobStore,
+    BatchBlobStore, BlobStore, CachedBlobStore, IterableBlobStore, BatchZipOffsetBlobStoreBuilder, DictionaryBlobStore, HuffmanBlobStore, MemoryBlobStore, MixedLenBlobStore, NestLoudsTrieBlobStore, NestLoudsTrieBlobStoreBuilder, PlainBlobStore,
     RansBlobStore, SimpleZipBlobStore, SimpleZipConfig, SortedUintVecBuilder, SortedUintVecConfig, TrieBlobStoreConfig, ZeroLengthBlobStore, ZipOffsetBlobStore, ZipOffsetBlobStoreBuilder,
     ZipOffsetBlobStoreConfig, ZstdBlobStore,
 };
 use zipora::cache::PageCacheConfig;
-use zipora::compression::dict_zip::{DictZipBlobStoreBuilder, DictZipConfig, DictionaryBuilderConfig, EntropyAlgorithm as DzEntropy};
+use zipora::compression::dict_zip::{DictZipBlobStore, DictZipBlobStoreBuilder, DictZipConfig, DictionaryBuilderConfig, EntropyAlgorithm as DzEntropy};
 use zipora::error::{Result as ZResult, ZiporaError};
 use zipora::{RankSelectInterleaved256, RecordId};
 use zsim_core::e3::{self, FaultyRead, FaultyWrite};
@@ -29,14 +37,72 @@ use zsim_core::{Chan, CheckSpec, Run, Scenario, Tier};
 
 const CLASS: [&str; 6] = ["empty", "tiny", "equal", "compressible", "random", "text"];
 
-/// Record generator: every non-empty record carries a per-run counter, so a wrong read is
-/// attributable to one write.
+/// Record generator: most non-empty records carry a per-run counter, so a wrong read is
+/// attributable to one write.  One record in five is *derived* from an earlier record of the
+/// same run instead (the same bytes again, one byte changed, a prefix, an extension, the same
+/// length with other content): stores that deduplicate, cache or index by content must not
+/// confuse two ids because their bytes agree.
 struct Gen {
     n: u32,
+    /// earlier non-empty records of this run (the sources of derived records)
+    hist: Vec<Vec<u8>>,
 }
 
+const RELATION: [&str; 7] = ["same_again", "last_byte_changed", "first_byte_changed", "prefix", "extended", "same_length", "doubled"];
+
 impl Gen {
+    fn new(n: u32) -> Gen {
+        Gen { n, hist: vec![] }
+    }
+
+    /// A record related to an earlier one; None if there is no earlier record.
+    fn derived(&mut self, how: u64, which: u64, salt: u64) -> Option<(usize, Vec<u8>)> {
+        if self.hist.is_empty() {
+            return None;
+        }
+        self.n += 1;
+        let src = self.hist[(which as usize) % self.hist.len()].clone();
+        let k = (how % RELATION.len() as u64) as usize;
+        let mut v = src.clone();
+        match k {
+            0 => {}
+            1 => {
+                let l = v.len();
+                v[l - 1] = v[l - 1].wrapping_add(1 + (salt % 3) as u8);
+            }
+            2 => v[0] = v[0].wrapping_add(1 + (salt % 3) as u8),
+            3 => {
+                let keep = [v.len() - 1, v.len() / 2, 1][(salt % 3) as usize];
+                v.truncate(keep);
+            }
+            4 => v.push((salt % 251) as u8),
+            5 => {
+                let mut x = mix(self.n as u64, salt);
+                for b in v.iter_mut() {
+                    *b = splitmix(&mut x) as u8;
+                }
+            }
+            _ => {
+                if v.len() <= 2500 {
+                    v.extend_from_slice(&src);
+                }
+            }
+        }
+        if !v.is_empty() && self.hist.len() < 12 {
+            self.hist.push(v.clone());
+        }
+        Some((k, v))
+    }
+
     fn make(&mut self, class: usize, a: u64, b: u64) -> Vec<u8> {
+        let v = self.make_fresh(class, a, b);
+        if !v.is_empty() && self.hist.len() < 12 {
+            self.hist.push(v.clone());
+        }
+        v
+    }
+
+    fn make_fresh(&mut self, class: usize, a: u64, b: u64) -> Vec<u8> {
         self.n += 1;
         let c = self.n;
         match class {
@@ -52,14 +118,15 @@ impl Gen {
                 v
             }
             3 => {
-                let len = [64usize, 65, 63, 300, 1000, 5000][(a % 6) as usize];
+                // lengths around the powers of two that the stores use as limits (fragment length 256, page 4096)
+                let len = [64usize, 65, 63, 300, 1000, 5000, 256, 255, 257, 4096, 4095, 512][(a % 12) as usize];
                 let mut v = vec![b'Z'];
                 v.extend_from_slice(&c.to_be_bytes());
-                v.resize(len, b'a' + (b % 3) as u8);
+                v.resize(len, [b'a', b'b', b'c', 0u8, 0xFF, b' '][(b % 6) as usize]);
                 v
             }
             4 => {
-                let len = [1usize, 7, 17, 63, 64, 65, 200][(a % 7) as usize];
+                let len = [1usize, 7, 17, 63, 64, 65, 200, 128, 256, 255][(a % 10) as usize];
                 let mut x = mix(c as u64, b);
                 let mut v: Vec<u8> = (0..len).map(|_| splitmix(&mut x) as u8).collect();
                 if len >= 7 {
@@ -121,7 +188,7 @@ impl Drop for Scratch {
 // ---------------------------------------------------------------------------------------
 // model + audit
 
-#[derive(Default)]
+#[derive(Default, Clone)]
 struct Model {
     live: BTreeMap<RecordId, Vec<u8>>,
     issued: BTreeSet<RecordId>,
@@ -386,6 +453,18 @@ fn new_fs(cx: &mut Run) -> Fs {
 // ---------------------------------------------------------------------------------------
 // target adapter
 
+/// What a reconfiguration / maintenance call is allowed to do to the records.
+enum Effect {
+    /// the records must be what they were
+    Unchanged,
+    /// documented to remove every record
+    Cleared,
+    /// records stored before may be gone (the documentation does not say); what is still served must be right
+    Unknown,
+}
+
+type Pair = ZResult<(RecordId, Vec<u8>)>;
+
 trait Tgt {
     fn st(&self) -> &dyn BlobStore;
     fn st_mut(&mut self) -> &mut dyn BlobStore;
@@ -395,19 +474,39 @@ trait Tgt {
     fn get_batch(&self, _ids: Vec<RecordId>) -> Option<ZResult<Vec<Option<Vec<u8>>>>> {
         None
     }
+    fn remove_batch(&mut self, _ids: Vec<RecordId>) -> Option<ZResult<usize>> {
+        None
+    }
     /// drop the store and open / load it again; None = not supported
     fn restart(&mut self) -> Option<Result<(), String>> {
+        None
+    }
+    /// a configuration / maintenance call of the concrete type, chosen by `k`
+    fn tweak(&mut self, _k: [u64; 3]) -> Option<(String, Effect)> {
+        None
+    }
+    /// (id, bytes) pairs as the store's own iteration yields them
+    fn pairs(&self) -> Option<Vec<Pair>> {
+        None
+    }
+    /// an independent second handle (`Clone`)
+    fn snapshot(&self) -> Option<Box<dyn BlobStore>> {
         None
     }
 }
 
 type Restart<S> = Box<dyn FnMut(S) -> Result<S, String>>;
+type Tweak<S> = Box<dyn FnMut(&mut S, [u64; 3]) -> Option<(String, Effect)>>;
 
 struct T<S: BlobStore> {
     s: Option<S>,
     restart: Option<Restart<S>>,
     pb: Option<fn(&mut S, Vec<Vec<u8>>) -> ZResult<Vec<RecordId>>>,
     gb: Option<fn(&S, Vec<RecordId>) -> ZResult<Vec<Option<Vec<u8>>>>>,
+    rb: Option<fn(&mut S, Vec<RecordId>) -> ZResult<usize>>,
+    tweak: Option<Tweak<S>>,
+    pairs: Option<fn(&S) -> Vec<Pair>>,
+    snap: Option<fn(&S) -> Box<dyn BlobStore>>,
 }
 
 fn pb<S: BatchBlobStore>(s: &mut S, v: Vec<Vec<u8>>) -> ZResult<Vec<RecordId>> {
@@ -416,20 +515,41 @@ fn pb<S: BatchBlobStore>(s: &mut S, v: Vec<Vec<u8>>) -> ZResult<Vec<RecordId>> {
 fn gb<S: BatchBlobStore>(s: &S, ids: Vec<RecordId>) -> ZResult<Vec<Option<Vec<u8>>>> {
     s.get_batch(ids)
 }
+fn rb<S: BatchBlobStore>(s: &mut S, ids: Vec<RecordId>) -> ZResult<usize> {
+    s.remove_batch(ids)
+}
+fn iter_pairs<S: IterableBlobStore>(s: &S) -> Vec<Pair> {
+    s.iter_blobs().collect()
+}
+fn clone_of<S: BlobStore + Clone + 'static>(s: &S) -> Box<dyn BlobStore> {
+    Box::new(s.clone())
+}
 
 impl<S: BlobStore> T<S> {
     fn plain(s: S) -> T<S> {
-        T { s: Some(s), restart: None, pb: None, gb: None }
+        T { s: Some(s), restart: None, pb: None, gb: None, rb: None, tweak: None, pairs: None, snap: None }
     }
 }
 impl<S: BlobStore + BatchBlobStore> T<S> {
     fn batch(s: S) -> T<S> {
-        T { s: Some(s), restart: None, pb: Some(pb::<S>), gb: Some(gb::<S>) }
+        T { s: Some(s), restart: None, pb: Some(pb::<S>), gb: Some(gb::<S>), rb: Some(rb::<S>), tweak: None, pairs: None, snap: None }
     }
 }
 impl<S: BlobStore> T<S> {
     fn with_restart(mut self, r: Restart<S>) -> T<S> {
         self.restart = Some(r);
+        self
+    }
+    fn with_tweak(mut self, t: Tweak<S>) -> T<S> {
+        self.tweak = Some(t);
+        self
+    }
+    fn with_pairs(mut self, f: fn(&S) -> Vec<Pair>) -> T<S> {
+        self.pairs = Some(f);
+        self
+    }
+    fn with_snap(mut self, f: fn(&S) -> Box<dyn BlobStore>) -> T<S> {
+        self.snap = Some(f);
         self
     }
 }
@@ -449,6 +569,10 @@ impl<S: BlobStore> Tgt for T<S> {
         let f = self.gb?;
         Some(f(self.s.as_ref().unwrap(), ids))
     }
+    fn remove_batch(&mut self, ids: Vec<RecordId>) -> Option<ZResult<usize>> {
+        let f = self.rb?;
+        Some(f(self.s.as_mut().unwrap(), ids))
+    }
     fn restart(&mut self) -> Option<Result<(), String>> {
         let r = self.restart.as_mut()?;
         let s = self.s.take().unwrap();
@@ -459,6 +583,18 @@ impl<S: BlobStore> Tgt for T<S> {
             }
             Err(e) => Err(e),
         })
+    }
+    fn tweak(&mut self, k: [u64; 3]) -> Option<(String, Effect)> {
+        let f = self.tweak.as_mut()?;
+        f(self.s.as_mut().unwrap(), k)
+    }
+    fn pairs(&self) -> Option<Vec<Pair>> {
+        let f = self.pairs?;
+        Some(f(self.s.as_ref().unwrap()))
+    }
+    fn snapshot(&self) -> Option<Box<dyn BlobStore>> {
+        let f = self.snap?;
+        Some(f(self.s.as_ref().unwrap()))
     }
 }
 
@@ -512,15 +648,24 @@ fn sync_orphans(m: &mut Model, fs: Option<&Fs>) {
     }
 }
 
-fn gen_record(caps: &Caps, gen: &mut Gen, o: &[u64; 4]) -> (usize, Vec<u8>) {
+/// (label, bytes) of the next record to store.  `o[1] % 6` is the class; `(o[1] / 6) % 5 == 4`
+/// asks for a record derived from an earlier one (the rare outcome is the non-zero one).
+fn gen_record(caps: &Caps, gen: &mut Gen, o: &[u64; 4]) -> (&'static str, Vec<u8>) {
     let mut class = (o[1] % 6) as usize;
     if caps.only_empty {
         class = if o[1] % 4 == 3 { 1 } else { 0 };
-    } else if caps.no_empty && class == 0 {
+    } else if (o[1] / 6) % 5 == 4 {
+        if let Some((k, v)) = gen.derived(o[1] / 30, o[2], o[3]) {
+            if !(caps.no_empty && v.is_empty()) {
+                return (RELATION[k], v);
+            }
+        }
+    }
+    if caps.no_empty && class == 0 {
         // an empty record now and then: the store documents that it refuses them
         class = if o[2] % 4 == 0 { 0 } else { 5 };
     }
-    (class, gen.make(class, o[2], o[3]))
+    (CLASS[class], gen.make(class, o[2], o[3]))
 }
 
 /// Runs the history; returns false if the run ended with a violation.
@@ -530,6 +675,8 @@ fn drive(cx: &mut Run, t: &mut dyn Tgt, caps: &Caps, m: &mut Model, gen: &mut Ge
     let mut ops = cx.src.ops("ops", planned);
     let mut prev = "start";
     let mut puts_ok = 0u64;
+    // a clone of the store taken at some point, with the model as it was then
+    let mut second: Option<(Box<dyn BlobStore>, Model)> = None;
     // audit of the initial state (bulk-initialised stores start non-empty)
     if let Some(x) = m.audit(t.st()) {
         viol(cx, caps, "@initial", x);
@@ -538,7 +685,7 @@ fn drive(cx: &mut Run, t: &mut dyn Tgt, caps: &Caps, m: &mut Model, gen: &mut Ge
     while let Some(o) = ops.next() {
         cx.steps += 1;
         let mut phase = "";
-        let kind = match o[0] % 16 {
+        let kind = match o[0] % 20 {
             0..=4 => "put",
             5 => "put_batch",
             6 | 7 => "remove",
@@ -548,19 +695,23 @@ fn drive(cx: &mut Run, t: &mut dyn Tgt, caps: &Caps, m: &mut Model, gen: &mut Ge
             12 => "get_batch",
             13 => "restart",
             14 => "put",
-            _ => "remove_live",
+            15 => "remove_live",
+            16 => "remove_batch",
+            17 => "tweak",
+            18 => "second_handle",
+            _ => "iterate",
         };
         let mut cell_class = "-";
         match kind {
             "put" => {
                 let (class, data) = gen_record(caps, gen, &o);
-                cell_class = CLASS[class];
+                cell_class = class;
                 arm_faults(fs);
                 let r = t.st_mut().put(&data);
                 let fired = drain_faults(cx, fs);
                 match r {
                     Ok(id) => {
-                        cx.ev(format!("put {} {} -> id {}", CLASS[class], desc(&data), id));
+                        cx.ev(format!("put {} {} -> id {}", class, desc(&data), id));
                         if m.removed.contains(&id) {
                             cx.probe("id_of_removed_record_reissued");
                         }
@@ -571,7 +722,7 @@ fn drive(cx: &mut Run, t: &mut dyn Tgt, caps: &Caps, m: &mut Model, gen: &mut Ge
                         puts_ok += 1;
                     }
                     Err(e) => {
-                        cx.ev(format!("put {} {} -> Err", CLASS[class], desc(&data)));
+                        cx.ev(format!("put {} {} -> Err", class, desc(&data)));
                         if fired == 0 {
                             cx.probe("put_refused");
                             let _ = e;
@@ -760,6 +911,156 @@ fn drive(cx: &mut Run, t: &mut dyn Tgt, caps: &Caps, m: &mut Model, gen: &mut Ge
                     }
                 }
             }
+            "remove_batch" => {
+                let n = (o[1] % 4) as usize;
+                let ids: Vec<RecordId> = (0..n)
+                    .map(|k| {
+                        let k = k as u64;
+                        if (o[2] >> k) & 1 == 1 && !m.live.is_empty() {
+                            let live: Vec<RecordId> = m.live.keys().copied().collect();
+                            live[((o[3] / (k + 1)) as usize) % live.len()]
+                        } else {
+                            m.pick(o[2] / (k + 1) + k, o[3] / (k + 1) + k)
+                        }
+                    })
+                    .collect();
+                arm_faults(fs);
+                let r = t.remove_batch(ids.clone());
+                let fired = drain_faults(cx, fs);
+                let Some(r) = r else { continue };
+                let hit: BTreeSet<RecordId> = ids.iter().copied().filter(|i| m.live.contains_key(i)).collect();
+                let maybe_hit: Vec<RecordId> = ids.iter().copied().filter(|i| m.maybe.contains_key(i)).collect();
+                let states: Vec<String> = ids.iter().map(|i| format!("{}({})", i, m.state(*i))).collect();
+                match r {
+                    Ok(cnt) => {
+                        cx.ev(format!("remove_batch [{}] -> Ok({})", states.join(", "), cnt));
+                        if cnt == hit.len() && maybe_hit.is_empty() {
+                            for i in &hit {
+                                m.live.remove(i);
+                                m.removed.insert(*i);
+                            }
+                            if !hit.is_empty() {
+                                cx.probe("remove_batch_removed_live_records");
+                            }
+                        } else {
+                            // the count is not part of the statement; which of the records went is unknown then
+                            for i in &hit {
+                                let d = m.live.remove(i).unwrap();
+                                m.maybe.insert(*i, d);
+                            }
+                            if maybe_hit.is_empty() && fired == 0 {
+                                cx.probe("remove_batch_count_differs_from_live_ids");
+                            }
+                        }
+                    }
+                    Err(_) => {
+                        cx.ev(format!("remove_batch [{}] -> Err", states.join(", ")));
+                        // not promised to be atomic
+                        for i in &hit {
+                            let d = m.live.remove(i).unwrap();
+                            m.maybe.insert(*i, d);
+                        }
+                        if fired == 0 && !hit.is_empty() {
+                            cx.probe("remove_batch_refused");
+                        }
+                    }
+                }
+            }
+            "tweak" => {
+                let Some((what, eff)) = t.tweak([o[1], o[2], o[3]]) else { continue };
+                cx.ev(format!("{}", what));
+                match eff {
+                    Effect::Unchanged => cx.probe("reconfigured"),
+                    Effect::Cleared => {
+                        let ids: Vec<RecordId> = m.live.keys().chain(m.maybe.keys()).copied().collect();
+                        for i in ids {
+                            m.live.remove(&i);
+                            m.maybe.remove(&i);
+                            m.removed.insert(i);
+                        }
+                        cx.probe("cleared");
+                    }
+                    Effect::Unknown => {
+                        let ids: Vec<RecordId> = m.live.keys().copied().collect();
+                        for i in ids {
+                            let d = m.live.remove(&i).unwrap();
+                            m.maybe.insert(i, d);
+                        }
+                        cx.probe("reconfigured_records_may_be_gone");
+                    }
+                }
+                phase = "@reconfigured";
+            }
+            "second_handle" => {
+                if second.is_none() {
+                    let Some(c) = t.snapshot() else { continue };
+                    cx.ev("clone -> second handle");
+                    cx.probe("cloned");
+                    second = Some((c, m.clone()));
+                } else {
+                    // use the clone: neither handle may see what the other one does
+                    let (c, cm) = second.as_mut().unwrap();
+                    if o[1] % 2 == 0 || cm.live.is_empty() {
+                        let (class, data) = gen_record(caps, gen, &[o[0], o[2], o[3], o[1]]);
+                        match c.put(&data) {
+                            Ok(id) => {
+                                cx.ev(format!("clone: put {} {} -> id {}", class, desc(&data), id));
+                                if let Some(x) = cm.acked_put(id, data) {
+                                    viol(cx, caps, "@clone", x);
+                                    return false;
+                                }
+                            }
+                            Err(_) => cx.ev(format!("clone: put {} {} -> Err", class, desc(&data))),
+                        }
+                    } else {
+                        let ids: Vec<RecordId> = cm.live.keys().copied().collect();
+                        let id = ids[(o[2] as usize) % ids.len()];
+                        let r = c.remove(id);
+                        cx.ev(format!("clone: remove {} (live) -> {}", id, if r.is_ok() { "Ok" } else { "Err" }));
+                        if r.is_ok() {
+                            cm.live.remove(&id);
+                            cm.removed.insert(id);
+                        }
+                    }
+                    cx.probe("clone_used");
+                }
+                let (c, cm) = second.as_ref().unwrap();
+                if let Some(x) = cm.audit(c.as_ref()) {
+                    viol(cx, caps, "@clone", x);
+                    return false;
+                }
+            }
+            "iterate" => {
+                let Some(pairs) = t.pairs() else { continue };
+                let mut seen: BTreeSet<RecordId> = BTreeSet::new();
+                let mut errs = 0;
+                for p in &pairs {
+                    match p {
+                        Ok((id, b)) => {
+                            seen.insert(*id);
+                            match m.live.get(id).or(m.maybe.get(id)) {
+                                Some(d) if d == b => {}
+                                Some(d) => {
+                                    cx.violate("wrong_value", &format!("{}.iter_blobs", caps.target), format!("iteration yielded id {} with {} but {} was stored", id, desc(b), desc(d)));
+                                    return false;
+                                }
+                                None if m.orphans.contains(id) => {}
+                                None => {
+                                    cx.violate(if m.removed.contains(id) { "removed_id_served" } else { "unknown_id_served" }, &format!("{}.iter_blobs", caps.target), format!("iteration yielded id {} with {} but the id is {}", id, desc(b), m.state(*id)));
+                                    return false;
+                                }
+                            }
+                        }
+                        Err(_) => errs += 1,
+                    }
+                }
+                cx.ev(format!("iterate -> {} records, {} errors", seen.len(), errs));
+                if m.live.keys().any(|i| !seen.contains(i)) {
+                    // completeness of iteration is not part of the statement
+                    cx.probe("iteration_missed_a_live_record");
+                }
+                cx.probe("iterated");
+            }
             _ => {
                 match t.restart() {
                     None => continue,
@@ -780,6 +1081,13 @@ fn drive(cx: &mut Run, t: &mut dyn Tgt, caps: &Caps, m: &mut Model, gen: &mut Ge
         prev = kind;
         if let Some(x) = m.audit(t.st()) {
             viol(cx, caps, phase, x);
+            return false;
+        }
+    }
+    if let Some((c, cm)) = second.as_ref() {
+        // whatever happened to the original since, the clone still answers as it did
+        if let Some(x) = cm.audit(c.as_ref()) {
+            viol(cx, caps, "@clone_at_end", x);
             return false;
         }
     }
@@ -823,8 +1131,67 @@ fn strategy(k: u64) -> CacheWriteStrategy {
     }
 }
 
+fn okerr<X>(r: &ZResult<X>) -> &'static str {
+    if r.is_ok() {
+        "Ok"
+    } else {
+        "Err"
+    }
+}
+
+/// Reconfiguration calls of a CachedBlobStore; none of them may change what the store answers.
+fn cached_tweak<S: BlobStore>(s: &mut CachedBlobStore<S>, k: [u64; 3]) -> Option<(String, Effect)> {
+    let what = match k[0] % 6 {
+        0 => format!("flush (trait) -> {}", okerr(&BlobStore::flush(s))),
+        1 => {
+            s.disable_cache();
+            "disable_cache".to_string()
+        }
+        2 => {
+            s.enable_cache();
+            "enable_cache".to_string()
+        }
+        3 => {
+            s.set_write_strategy(strategy(k[1]));
+            format!("set_write_strategy({:?})", s.write_strategy())
+        }
+        4 => {
+            let (off, len) = (k[1] % 10000, (k[2] % 9000) as usize);
+            format!("prefetch_range({}, {}) -> {}", off, len, okerr(&s.prefetch_range(off, len)))
+        }
+        _ => format!("flush (cache) -> {}", okerr(&CachedBlobStore::flush(&*s))),
+    };
+    Some((what, Effect::Unchanged))
+}
+
+fn dz_pairs(s: &DictZipBlobStore) -> Vec<Pair> {
+    match s.iter_blobs_vec() {
+        Ok(mut v) => {
+            // the store iterates a HashMap: order by id so that nothing depends on that order
+            v.sort();
+            v.into_iter().map(Ok).collect()
+        }
+        Err(e) => vec![Err(e)],
+    }
+}
+
+fn flush_tweak<S: BlobStore>(s: &mut S, _k: [u64; 3]) -> Option<(String, Effect)> {
+    Some((format!("flush -> {}", okerr(&s.flush())), Effect::Unchanged))
+}
+
+/// A piece of training data that differs from call to call (so a rebuilt code table differs too).
+fn training_piece(k: [u64; 3]) -> Vec<u8> {
+    let mut g = Gen::new(2000 + (k[1] % 50) as u32);
+    match k[1] % 4 {
+        0 => g.make_fresh(5, k[2], k[2]),
+        1 => g.make_fresh(3, k[2] % 3, k[2]),
+        2 => g.make_fresh(4, 6, k[2]),
+        _ => b"zzzzzzzzyyyyxxw 0123456789".to_vec(),
+    }
+}
+
 fn training_text() -> Vec<u8> {
-    let mut g = Gen { n: 1000 };
+    let mut g = Gen::new(1000);
     // skewed on purpose: with all 256 byte values equally likely the Huffman code is the identity
     let mut v: Vec<u8> = b"0123456789".to_vec();
     for k in 0..6 {
@@ -843,6 +1210,8 @@ enum Kind {
     ZstdPlain,
     HuffmanUntrained,
     HuffmanTrained,
+    /// the code table is (re)built in the middle of the history
+    HuffmanRetrained,
     Rans,
     Dictionary,
     Cached(u8),
@@ -916,7 +1285,7 @@ impl Scenario for Mutable {
         let cfg = cx.src.chan("cfg");
         let seed = cx.src.seed;
         let mut m = Model::default();
-        let mut gen = Gen { n: 0 };
+        let mut gen = Gen::new(0);
         let mut fs: Option<Fs> = None;
         let mut scratch: Option<Scratch> = None;
         let mut caps = Caps { target: "", only_empty: false, no_empty: false };
@@ -946,7 +1315,29 @@ impl Scenario for Mutable {
                     }
                 };
                 let how = cfg.below(2);
-                Box::new(T::batch(s).with_restart(Box::new(move |s: MemoryBlobStore| if how == 0 { json_roundtrip!(s, MemoryBlobStore) } else { Ok(s.clone()) })))
+                Box::new(
+                    T::batch(s)
+                        .with_restart(Box::new(move |s: MemoryBlobStore| if how == 0 { json_roundtrip!(s, MemoryBlobStore) } else { Ok(s.clone()) }))
+                        .with_pairs(iter_pairs::<MemoryBlobStore>)
+                        .with_snap(clone_of::<MemoryBlobStore>)
+                        .with_tweak(Box::new(|s: &mut MemoryBlobStore, k| {
+                            Some(match k[0] % 5 {
+                                4 => {
+                                    s.clear();
+                                    ("clear".to_string(), Effect::Cleared)
+                                }
+                                1 => {
+                                    s.reserve((k[1] % 64) as usize);
+                                    ("reserve".to_string(), Effect::Unchanged)
+                                }
+                                2 => {
+                                    s.shrink_to_fit();
+                                    ("shrink_to_fit".to_string(), Effect::Unchanged)
+                                }
+                                _ => (format!("flush -> {}", okerr(&s.flush())), Effect::Unchanged),
+                            })
+                        })),
+                )
             }
             Kind::Plain => {
                 caps.target = "PlainBlobStore";
@@ -954,15 +1345,25 @@ impl Scenario for Mutable {
                 let dir = sc.0.clone();
                 scratch = Some(sc);
                 let s = if cfg.below(2) == 0 { PlainBlobStore::new(&dir) } else { PlainBlobStore::create_new(&dir) }.expect("scratch dir");
-                Box::new(T::batch(s).with_restart(Box::new(move |s: PlainBlobStore| {
-                    drop(s);
-                    PlainBlobStore::new(&dir).map_err(|e| es(&e))
-                })))
+                Box::new(
+                    T::batch(s)
+                        .with_restart(Box::new(move |s: PlainBlobStore| {
+                            drop(s);
+                            PlainBlobStore::new(&dir).map_err(|e| es(&e))
+                        }))
+                        .with_pairs(iter_pairs::<PlainBlobStore>)
+                        .with_tweak(Box::new(flush_tweak::<PlainBlobStore>)),
+                )
             }
             Kind::ZstdMemory => {
                 caps.target = "ZstdBlobStore<MemoryBlobStore>";
                 let level = *cfg.pick(&[1i32, 3, 9, 0, -7]);
-                Box::new(T::batch(ZstdBlobStore::new(mem(), level)).with_restart(Box::new(|s: ZstdBlobStore<MemoryBlobStore>| json_roundtrip!(s, ZstdBlobStore<MemoryBlobStore>))))
+                Box::new(
+                    T::batch(ZstdBlobStore::new(mem(), level))
+                        .with_restart(Box::new(|s: ZstdBlobStore<MemoryBlobStore>| json_roundtrip!(s, ZstdBlobStore<MemoryBlobStore>)))
+                        .with_pairs(iter_pairs::<ZstdBlobStore<MemoryBlobStore>>)
+                        .with_tweak(Box::new(flush_tweak::<ZstdBlobStore<MemoryBlobStore>>)),
+                )
             }
             Kind::ZstdPlain => {
                 caps.target = "ZstdBlobStore<PlainBlobStore>";
@@ -971,14 +1372,32 @@ impl Scenario for Mutable {
                 scratch = Some(sc);
                 let level = *cfg.pick(&[1i32, 3, 9]);
                 let s = ZstdBlobStore::new(PlainBlobStore::new(&dir).expect("scratch dir"), level);
-                Box::new(T::batch(s).with_restart(Box::new(move |s: ZstdBlobStore<PlainBlobStore>| {
-                    drop(s);
-                    Ok(ZstdBlobStore::new(PlainBlobStore::new(&dir).map_err(|e| es(&e))?, level))
-                })))
+                Box::new(
+                    T::batch(s)
+                        .with_restart(Box::new(move |s: ZstdBlobStore<PlainBlobStore>| {
+                            drop(s);
+                            Ok(ZstdBlobStore::new(PlainBlobStore::new(&dir).map_err(|e| es(&e))?, level))
+                        }))
+                        .with_pairs(iter_pairs::<ZstdBlobStore<PlainBlobStore>>),
+                )
             }
             Kind::HuffmanUntrained => {
                 caps.target = "HuffmanBlobStore<MemoryBlobStore>";
-                Box::new(T::plain(HuffmanBlobStore::new(mem())))
+                Box::new(T::plain(HuffmanBlobStore::new(mem())).with_tweak(Box::new(flush_tweak::<HuffmanBlobStore<MemoryBlobStore>>)))
+            }
+            Kind::HuffmanRetrained => {
+                caps.target = "HuffmanBlobStore<MemoryBlobStore>[tree rebuilt]";
+                let mut s = HuffmanBlobStore::new(mem());
+                if cfg.below(2) == 1 {
+                    s.add_training_data(&training_text());
+                    s.build_tree().expect("build_tree on non-empty training data");
+                }
+                Box::new(T::plain(s).with_tweak(Box::new(|s: &mut HuffmanBlobStore<MemoryBlobStore>, k| {
+                    let piece = training_piece(k);
+                    s.add_training_data(&piece);
+                    let r = s.build_tree();
+                    Some((format!("add_training_data({}); build_tree -> {}", desc(&piece), okerr(&r)), Effect::Unchanged))
+                })))
             }
             Kind::HuffmanTrained => {
                 caps.target = "HuffmanBlobStore<MemoryBlobStore>[tree built]";
@@ -993,7 +1412,10 @@ impl Scenario for Mutable {
                 if cfg.below(2) == 1 {
                     s.train(&training_text()).expect("train");
                 }
-                Box::new(T::plain(s))
+                Box::new(T::plain(s).with_tweak(Box::new(|s: &mut RansBlobStore<MemoryBlobStore>, k| {
+                    let piece = training_piece(k);
+                    Some((format!("train({}) -> {}", desc(&piece), okerr(&s.train(&piece))), Effect::Unchanged))
+                })))
             }
             Kind::Dictionary => {
                 caps.target = "DictionaryBlobStore<MemoryBlobStore>";
@@ -1001,7 +1423,10 @@ impl Scenario for Mutable {
                 if cfg.below(2) == 1 {
                     s.train(&training_text()).expect("train");
                 }
-                Box::new(T::plain(s))
+                Box::new(T::plain(s).with_tweak(Box::new(|s: &mut DictionaryBlobStore<MemoryBlobStore>, k| {
+                    let piece = training_piece(k);
+                    Some((format!("train({}) -> {}", desc(&piece), okerr(&s.train(&piece))), Effect::Unchanged))
+                })))
             }
             Kind::Cached(k) => {
                 caps.target = ["CachedBlobStore<MemoryBlobStore>[write_through]", "CachedBlobStore<MemoryBlobStore>[write_back]", "CachedBlobStore<MemoryBlobStore>[write_around]"][k as usize % 3];
@@ -1009,17 +1434,17 @@ impl Scenario for Mutable {
                 if cfg.below(6) == 0 {
                     s.disable_cache();
                 }
-                Box::new(T::plain(s))
+                Box::new(T::plain(s).with_tweak(Box::new(cached_tweak::<MemoryBlobStore>)))
             }
             Kind::CachedZstd => {
                 caps.target = "CachedBlobStore<ZstdBlobStore<MemoryBlobStore>>";
                 let s = CachedBlobStore::with_write_strategy(ZstdBlobStore::new(mem(), 3), cache_cfg(&cfg), strategy(cfg.below(3))).expect("cache config");
-                Box::new(T::plain(s))
+                Box::new(T::plain(s).with_tweak(Box::new(cached_tweak::<ZstdBlobStore<MemoryBlobStore>>)))
             }
             Kind::ZstdCached => {
                 caps.target = "ZstdBlobStore<CachedBlobStore<MemoryBlobStore>>";
                 let s = ZstdBlobStore::new(CachedBlobStore::with_write_strategy(mem(), cache_cfg(&cfg), strategy(cfg.below(3))).expect("cache config"), 3);
-                Box::new(T::plain(s))
+                Box::new(T::plain(s).with_tweak(Box::new(|s: &mut ZstdBlobStore<CachedBlobStore<MemoryBlobStore>>, k| cached_tweak(s.inner_mut(), k).map(|(w, e)| (format!("inner: {}", w), e)))))
             }
             Kind::HuffmanZstd => {
                 caps.target = "HuffmanBlobStore<ZstdBlobStore<MemoryBlobStore>>";
@@ -1035,27 +1460,93 @@ impl Scenario for Mutable {
                     m.live.insert(i as RecordId, vec![]);
                 }
                 cx.ev(format!("ZeroLengthBlobStore with {} initial records", n0));
-                Box::new(T::batch(s).with_restart(Box::new(|s: ZeroLengthBlobStore| json_roundtrip!(s, ZeroLengthBlobStore))))
+                Box::new(
+                    T::batch(s)
+                        .with_restart(Box::new(|s: ZeroLengthBlobStore| json_roundtrip!(s, ZeroLengthBlobStore)))
+                        .with_pairs(iter_pairs::<ZeroLengthBlobStore>)
+                        .with_snap(clone_of::<ZeroLengthBlobStore>)
+                        .with_tweak(Box::new(flush_tweak::<ZeroLengthBlobStore>)),
+                )
             }
             Kind::DictZip(variant) => {
                 caps.target = ["DictZipBlobStore[entropy=none]", "DictZipBlobStore[entropy=huffman_o1]", "DictZipBlobStore[entropy=fse]", "DictZipBlobStore[preset]"][variant as usize % 4];
                 caps.no_empty = true;
                 let c = dz_config(variant, &cfg);
-                let mut b = DictZipBlobStoreBuilder::with_config(c).expect("valid config");
-                let mut tg = Gen { n: 5000 };
+                // 3 = the store is opened from a saved dictionary file instead of coming out of the builder
+                let how = cfg.below(4);
+                let sc = Scratch::new(seed, "dictzip");
+                let dir = sc.0.clone();
+                scratch = Some(sc);
+                let mut b = DictZipBlobStoreBuilder::with_config(c.clone()).expect("valid config");
+                let mut tg = Gen::new(5000);
                 let nsamples = 2 + cfg.below(5);
                 for k in 0..nsamples {
                     b.add_training_sample(&tg.make(if k % 3 == 2 { 3 } else { 5 }, k, k)).expect("non-empty sample");
                 }
-                match b.finish() {
-                    Ok(s) => Box::new(T::batch(s)),
+                let s0 = match b.finish() {
+                    Ok(s) => s,
                     Err(e) => {
                         // building the dictionary is outside the property; a refusal here ends the run
                         cx.ev(format!("DictZipBlobStoreBuilder::finish -> Err({})", es(&e)));
                         cx.probe("dict_zip_build_refused");
                         return;
                     }
-                }
+                };
+                let s = if how == 3 {
+                    let _ = std::fs::create_dir_all(&dir);
+                    let path = dir.join("dict0");
+                    match s0.save_dictionary(&path).and_then(|_| DictZipBlobStore::from_dictionary_file(&path, c.clone())) {
+                        Ok(s1) => {
+                            cx.ev("save_dictionary; from_dictionary_file -> Ok: this store is used");
+                            cx.probe("opened_from_dictionary_file");
+                            s1
+                        }
+                        Err(e) => {
+                            cx.ev(format!("save_dictionary; from_dictionary_file -> Err({})", es(&e)));
+                            cx.probe("dictionary_file_refused");
+                            s0
+                        }
+                    }
+                } else {
+                    s0
+                };
+                let (dir2, c2) = (dir.clone(), c.clone());
+                let mut other_built = false;
+                Box::new(T::batch(s).with_pairs(dz_pairs).with_tweak(Box::new(move |s: &mut DictZipBlobStore, k| {
+                    Some(match k[0] % 4 {
+                        0 => (format!("optimize -> {}", okerr(&s.optimize())), Effect::Unchanged),
+                        1 => (format!("validate -> {}", okerr(&s.validate())), Effect::Unchanged),
+                        2 => {
+                            // its own dictionary, saved and loaded again
+                            let _ = std::fs::create_dir_all(&dir2);
+                            let p = dir2.join("own");
+                            if s.save_dictionary(&p).is_err() {
+                                return Some(("save_dictionary -> Err".to_string(), Effect::Unchanged));
+                            }
+                            (format!("save_dictionary; load_dictionary(the same) -> {}", okerr(&s.load_dictionary(&p))), Effect::Unknown)
+                        }
+                        _ => {
+                            // a dictionary trained on other samples
+                            let _ = std::fs::create_dir_all(&dir2);
+                            let p = dir2.join("other");
+                            if !other_built {
+                                let Ok(mut b) = DictZipBlobStoreBuilder::with_config(c2.clone()) else { return None };
+                                let mut tg = Gen::new(7000);
+                                for j in 0..3u64 {
+                                    if b.add_training_sample(&tg.make(if j == 1 { 4 } else { 5 }, j + 6, j + 1)).is_err() {
+                                        return None;
+                                    }
+                                }
+                                let Ok(o) = b.finish() else { return Some(("another dictionary could not be built".to_string(), Effect::Unchanged)) };
+                                if o.save_dictionary(&p).is_err() {
+                                    return Some(("save_dictionary(other) -> Err".to_string(), Effect::Unchanged));
+                                }
+                                other_built = true;
+                            }
+                            (format!("load_dictionary(trained on other samples) -> {}", okerr(&s.load_dictionary(&p))), Effect::Unknown)
+                        }
+                    })
+                })))
             }
             Kind::FZstd => {
                 caps.target = "ZstdBlobStore<FaultyStore<MemoryBlobStore>>";
@@ -1063,7 +1554,7 @@ impl Scenario for Mutable {
             }
             Kind::FCached => {
                 caps.target = "CachedBlobStore<FaultyStore<MemoryBlobStore>>";
-                Box::new(T::plain(CachedBlobStore::with_write_strategy(faulty(cx, &mut fs), cache_cfg(&cfg), strategy(cfg.below(3))).expect("cache config")))
+                Box::new(T::plain(CachedBlobStore::with_write_strategy(faulty(cx, &mut fs), cache_cfg(&cfg), strategy(cfg.below(3))).expect("cache config")).with_tweak(Box::new(cached_tweak::<FaultyStore<MemoryBlobStore>>)))
             }
             Kind::FHuffman => {
                 caps.target = "HuffmanBlobStore<FaultyStore<MemoryBlobStore>>";
@@ -1097,8 +1588,11 @@ impl Scenario for Mutable {
 
 type TrieStore = NestLoudsTrieBlobStore<RankSelectInterleaved256>;
 
-const KEYS: [&[u8]; 10] = [b"a", b"ab", b"abc", b"abd", b"b", b"user/1", b"user/12", b"user/2", b"\x00", b"\xff\xfe"];
-const PREFIXES: [&[u8]; 7] = [b"", b"a", b"ab", b"user/", b"user/1", b"zz", b"\xff"];
+/// keys that are prefixes of each other, the empty key, a key with a NUL inside, and one longer than any
+/// inline / path-compression limit (70 bytes)
+const LONG_KEY: &[u8] = b"user/12/a-very-long-key-that-goes-on-and-on-and-on-and-on-and-on/0123456789";
+const KEYS: [&[u8]; 13] = [b"a", b"ab", b"abc", b"abd", b"b", b"user/1", b"user/12", b"user/2", b"\x00", b"\xff\xfe", b"", b"ab\x00c", LONG_KEY];
+const PREFIXES: [&[u8]; 10] = [b"", b"a", b"ab", b"user/", b"user/1", b"zz", b"\xff", b"ab\x00", b"user/12/a-very-long-key", LONG_KEY];
 
 fn trie_config(preset: u8) -> TrieBlobStoreConfig {
     match preset {
@@ -1180,7 +1674,7 @@ impl Scenario for Trie {
         };
         let mut m = Model { skip_len: self.skip_len, ..Default::default() };
         let mut km = KeyModel::default();
-        let mut gen = Gen { n: 0 };
+        let mut gen = Gen::new(0);
         let planned = 4 + cfg.below(17);
         let mut ops = cx.src.ops("ops", planned);
         let mut prev = "start";
@@ -1188,7 +1682,7 @@ impl Scenario for Trie {
         let mut finalized = false;
         while let Some(o) = ops.next() {
             cx.steps += 1;
-            let kind = match o[0] % 16 {
+            let kind = match o[0] % 20 {
                 0..=4 => "put_with_key",
                 5 => "put",
                 6 | 7 => "remove",
@@ -1197,11 +1691,15 @@ impl Scenario for Trie {
                 12 => "get_batch",
                 13 => "put_batch_with_keys",
                 14 => "finalize",
-                _ => "remove_live",
+                15 => "remove_live",
+                16 => "remove_batch",
+                17 => "contains_key",
+                18 => "keys_with_prefix",
+                _ => "put_batch",
             };
             match kind {
                 "put_with_key" | "put" => {
-                    let data = gen.make((o[1] % 6) as usize, o[2], o[3]);
+                    let (_, data) = gen_record(&caps, &mut gen, &o);
                     let key: Vec<u8> = KEYS[(o[2] % KEYS.len() as u64) as usize].to_vec();
                     let r = if kind == "put" { s.put(&data) } else { s.put_with_key(&key, &data) };
                     let ks = String::from_utf8_lossy(&key).to_string();
@@ -1338,6 +1836,117 @@ impl Scenario for Trie {
                         }
                     }
                 }
+                "remove_batch" => {
+                    let n = (o[1] % 4) as usize;
+                    let ids: Vec<RecordId> = (0..n)
+                        .map(|k| {
+                            let k = k as u64;
+                            if (o[2] >> k) & 1 == 1 && !m.live.is_empty() {
+                                let live: Vec<RecordId> = m.live.keys().copied().collect();
+                                live[((o[3] / (k + 1)) as usize) % live.len()]
+                            } else {
+                                m.pick(o[2] / (k + 1) + k, o[3] / (k + 1) + k)
+                            }
+                        })
+                        .collect();
+                    let hit: BTreeSet<RecordId> = ids.iter().copied().filter(|i| m.live.contains_key(i)).collect();
+                    let states: Vec<String> = ids.iter().map(|i| format!("{}({})", i, m.state(*i))).collect();
+                    match s.remove_batch(ids.clone()) {
+                        Ok(cnt) => {
+                            cx.ev(format!("remove_batch [{}] -> Ok({})", states.join(", "), cnt));
+                            if finalized && cnt == 0 {
+                                // a finalized store refuses every removal
+                            } else if cnt == hit.len() {
+                                for i in &hit {
+                                    m.live.remove(i);
+                                    m.removed.insert(*i);
+                                }
+                                if !hit.is_empty() {
+                                    cx.probe("remove_batch_removed_live_records");
+                                }
+                            } else {
+                                // the count is not part of the statement, and which records went is unknown: stop here
+                                cx.probe("remove_batch_count_differs_run_cut");
+                                break;
+                            }
+                        }
+                        Err(_) => {
+                            cx.ev(format!("remove_batch [{}] -> Err", states.join(", ")));
+                            if !hit.is_empty() {
+                                cx.probe("remove_batch_refused_run_cut");
+                                break;
+                            }
+                        }
+                    }
+                }
+                "contains_key" => {
+                    let key = KEYS[(o[1] % KEYS.len() as u64) as usize];
+                    let r = s.contains_key(key);
+                    let ks = String::from_utf8_lossy(key).to_string();
+                    cx.ev(format!("contains_key {:?} -> {}", ks, r));
+                    // only the direction the statement covers: a key whose (single) record is live is there
+                    if !r {
+                        if let Some(x) = km.check(&m, key, None, "contains_key") {
+                            viol(cx, &caps, "", x);
+                            return;
+                        }
+                    }
+                }
+                "keys_with_prefix" => {
+                    let p = PREFIXES[(o[1] % PREFIXES.len() as u64) as usize];
+                    let ps = String::from_utf8_lossy(p).to_string();
+                    let r = if p.is_empty() && o[2] % 2 == 0 { s.keys() } else { s.keys_with_prefix(p) };
+                    match r {
+                        Ok(keys) => {
+                            cx.ev(format!("keys_with_prefix {:?} -> {} keys", ps, keys.len()));
+                            if let Some(k) = keys.iter().find(|k| !k.starts_with(p)) {
+                                cx.violate("wrong_value", &format!("{}.keys_with_prefix", target), format!("prefix {:?} returned key {:?}", ps, String::from_utf8_lossy(k)));
+                                return;
+                            }
+                            let seen: BTreeSet<&Vec<u8>> = keys.iter().collect();
+                            for k in km.by_key.keys().filter(|k| k.starts_with(p)) {
+                                if !seen.contains(k) {
+                                    if let Some(x) = km.check(&m, k, None, "keys_with_prefix") {
+                                        viol(cx, &caps, "", x);
+                                        return;
+                                    }
+                                }
+                            }
+                        }
+                        Err(_) => {
+                            cx.ev(format!("keys_with_prefix {:?} -> Err", ps));
+                            cx.probe("prefix_query_refused");
+                        }
+                    }
+                }
+                "put_batch" => {
+                    let n = (o[1] % 3) as usize + 1;
+                    let batch: Vec<Vec<u8>> = (0..n).map(|k| gen_record(&caps, &mut gen, &[o[0], o[2] + 7 * k as u64, o[3] + k as u64, o[3] / 7]).1).collect();
+                    match s.put_batch(batch.clone()) {
+                        Ok(ids) => {
+                            cx.ev(format!("put_batch [{}] -> ids {:?}", batch.iter().map(|d| desc(d)).collect::<Vec<_>>().join(", "), ids));
+                            if ids.len() != n {
+                                cx.violate("batch_shape", &format!("{}.put_batch", target), format!("{} records, {} ids", n, ids.len()));
+                                return;
+                            }
+                            for (id, data) in ids.iter().zip(batch.into_iter()) {
+                                km.keyless.insert(*id);
+                                if let Some(x) = m.acked_put(*id, data) {
+                                    viol(cx, &caps, "", V { op: "put_batch", ..x });
+                                    return;
+                                }
+                                puts_ok += 1;
+                            }
+                        }
+                        Err(_) => {
+                            cx.ev(format!("put_batch {} records -> Err{}", n, if finalized { " (finalized)" } else { "" }));
+                            if !finalized {
+                                cx.probe("put_batch_refused_run_cut");
+                                break;
+                            }
+                        }
+                    }
+                }
                 "get_batch" => {
                     let ids: Vec<RecordId> = (0..3).map(|k| m.pick(o[1] + k, o[2] / (k + 1))).collect();
                     match s.get_batch(ids.clone()) {
@@ -1392,19 +2001,43 @@ impl Scenario for Trie {
 // ---------------------------------------------------------------------------------------
 // stores built in bulk
 
+/// Input records of a bulk build.  One run in five is a *large* build: a record count around the
+/// block sizes of the index structures (64 / 128 offsets per block, 256 bits per rank block) made
+/// of short records; the others have up to `max_n` records of every class.  One record in five
+/// is derived from an earlier one (see `Gen::derived`).
 fn gen_inputs(cx: &mut Run, gen: &mut Gen, max_n: u64, text_bias: bool, allow_empty_set: bool) -> Vec<Vec<u8>> {
     let cfg = cx.src.chan("cfg");
-    let planned = if allow_empty_set { cfg.below(max_n + 1) } else { 1 + cfg.below(max_n) };
+    let mut planned = if allow_empty_set { cfg.below(max_n + 1) } else { 1 + cfg.below(max_n) };
+    let large = cfg.chance(1, 5);
+    if large {
+        planned = *cfg.pick(&[63u64, 64, 65, 127, 128, 129, 200, 255, 256, 257, 300, 513]);
+    }
     let mut ops = cx.src.ops("ops", planned);
-    let mut out = vec![];
+    let mut out: Vec<Vec<u8>> = vec![];
+    let mut digest = 0u64;
     while let Some(o) = ops.next() {
         let mut class = (o[0] % 6) as usize;
         if text_bias && o[1] % 2 == 0 {
             class = 5;
         }
-        let d = gen.make(class, o[2], o[3]);
-        cx.ev(format!("input {} = {} {}", out.len(), CLASS[class], desc(&d)));
+        if large {
+            // short records, mostly of one length, so that the structures stay small and the equal-length path is the common one
+            class = [2usize, 2, 1, 0, 2, 1, 2, 4][(o[0] % 8) as usize];
+        }
+        let (label, d) = match if (o[0] / 8) % 5 == 4 { gen.derived(o[0] / 40, o[2], o[3]) } else { None } {
+            Some((k, v)) => (RELATION[k], v),
+            None => (CLASS[class], gen.make(class, if large && class == 4 { o[2] % 3 } else { o[2] }, o[3])),
+        };
+        if large {
+            digest = mix(digest, hash_bytes(&d));
+        } else {
+            cx.ev(format!("input {} = {} {}", out.len(), label, desc(&d)));
+        }
         out.push(d);
+    }
+    if large {
+        cx.ev(format!("{} short input records (digest {:016x})", out.len(), digest));
+        cx.probe("large_build");
     }
     cx.steps = out.len() as u64;
     out
@@ -1438,8 +2071,14 @@ fn zo_config(cfg: &Chan) -> (ZipOffsetBlobStoreConfig, String) {
         2 => (ZipOffsetBlobStoreConfig::compression_optimized(), "compression_optimized".into()),
         3 => (ZipOffsetBlobStoreConfig::security_optimized(), "security_optimized".into()),
         _ => {
-            let c = ZipOffsetBlobStoreConfig { compress_level: *cfg.pick(&[0u8, 0, 1, 3]), checksum_level: cfg.below(4) as u8, ..Default::default() };
-            let n = format!("compress={} checksum={}", c.compress_level, c.checksum_level);
+            let mut c = ZipOffsetBlobStoreConfig { compress_level: *cfg.pick(&[0u8, 0, 1, 3]), checksum_level: cfg.below(4) as u8, ..Default::default() };
+            let mut n = format!("compress={} checksum={}", c.compress_level, c.checksum_level);
+            if cfg.chance(1, 2) {
+                // the offset index with other block sizes and bit widths than the presets have (sample widths 58..63 are
+                // left to sorted_uint_vec/bulk, where they are a known finding of SortedUintVecBuilder)
+                c.offset_config = SortedUintVecConfig { log2_block_units: 4 + cfg.below(5) as u8, offset_width: *cfg.pick(&[16u8, 12, 13, 20, 31, 32]), sample_width: *cfg.pick(&[32u8, 24, 17, 33, 40, 57, 64]), use_simd: cfg.below(2) == 0 };
+                n = format!("{} offsets(log2_block={} offset_width={} sample_width={} simd={})", n, c.offset_config.log2_block_units, c.offset_config.offset_width, c.offset_config.sample_width, c.offset_config.use_simd);
+            }
             (c, n)
         }
     }
@@ -1459,10 +2098,16 @@ impl Scenario for ZipOffsetBulk {
         let cfg = cx.src.chan("cfg");
         let (c, cname) = zo_config(&cfg);
         cx.ev(format!("config {}", cname));
-        let mut gen = Gen { n: 0 };
+        let mut gen = Gen::new(0);
         let inputs = gen_inputs(cx, &mut gen, 8, false, true);
         let mut b = ZipOffsetBlobStoreBuilder::with_config(c).expect("preset config is valid");
-        for (i, d) in inputs.iter().enumerate() {
+        // how the records reach the builder: one by one, or some of them through add_records / after reserve
+        let how = cfg.below(3);
+        let split = if how == 0 { inputs.len() } else { (cfg.below(inputs.len() as u64 + 1)) as usize };
+        if how == 2 {
+            let _ = b.reserve(inputs.len());
+        }
+        for (i, d) in inputs.iter().enumerate().take(split) {
             match b.add_record(d) {
                 Ok(id) => {
                     if id as usize != i {
@@ -1472,6 +2117,23 @@ impl Scenario for ZipOffsetBulk {
                 }
                 Err(e) => {
                     cx.ev(format!("add_record {} -> Err({})", i, es(&e)));
+                    cx.probe("add_record_refused");
+                    return;
+                }
+            }
+        }
+        if split < inputs.len() {
+            match b.add_records(inputs[split..].iter()) {
+                Ok(ids) => {
+                    cx.ev(format!("add_records({} records) -> {} ids", inputs.len() - split, ids.len()));
+                    let want: Vec<RecordId> = (split as RecordId..inputs.len() as RecordId).collect();
+                    if ids != want {
+                        cx.violate("id_mismatch", "ZipOffsetBlobStoreBuilder.add_records", format!("records {}..{} were given ids {:?}", split, inputs.len(), ids));
+                        return;
+                    }
+                }
+                Err(e) => {
+                    cx.ev(format!("add_records -> Err({})", es(&e)));
                     cx.probe("add_record_refused");
                     return;
                 }
@@ -1489,6 +2151,52 @@ impl Scenario for ZipOffsetBulk {
         cx.nontrivial = !inputs.is_empty();
         cx.cell(format!("zip_offset/{}/{}", cname, inputs.len().min(3)));
         check_bulk(cx, &st, &inputs, "ZipOffsetBlobStoreBuilder.finish", "");
+    }
+}
+
+/// The batching front end of the builder: record i of the built store == input i.
+struct ZipOffsetBatchBuilder;
+
+impl Scenario for ZipOffsetBatchBuilder {
+    fn name(&self) -> String {
+        "zip_offset/batch_builder".into()
+    }
+    fn budget(&self, tier: Tier) -> u64 {
+        match tier {
+            Tier::Quick => 800,
+            Tier::Thorough => 24000,
+        }
+    }
+    fn run(&self, cx: &mut Run) {
+        let cfg = cx.src.chan("cfg");
+        let (c, cname) = zo_config(&cfg);
+        let batch = *cfg.pick(&[1usize, 2, 3, 8, 1000]);
+        cx.ev(format!("config {} batch_size={}", cname, batch));
+        let mut gen = Gen::new(0);
+        let inputs = gen_inputs(cx, &mut gen, 8, false, true);
+        let Ok(mut b) = BatchZipOffsetBlobStoreBuilder::with_config(c, batch) else {
+            cx.probe("builder_refused");
+            return;
+        };
+        for (i, d) in inputs.iter().enumerate() {
+            if let Err(e) = b.add_record(d) {
+                cx.ev(format!("add_record {} -> Err({})", i, es(&e)));
+                cx.probe("add_record_refused");
+                return;
+            }
+        }
+        let st = match b.finish() {
+            Ok(s) => s,
+            Err(e) => {
+                cx.ev(format!("finish -> Err({})", es(&e)));
+                cx.probe("finish_refused");
+                return;
+            }
+        };
+        cx.ev(format!("finish -> store with len {}", st.len()));
+        cx.nontrivial = !inputs.is_empty();
+        cx.cell(format!("zip_offset_batch/{}/{}/{}", cname, batch.min(9), inputs.len().min(3)));
+        check_bulk(cx, &st, &inputs, "BatchZipOffsetBlobStoreBuilder.finish", "");
     }
 }
 
@@ -1511,7 +2219,7 @@ impl Scenario for ZipOffsetSaveLoad {
         let cfg = cx.src.chan("cfg");
         let (c, cname) = zo_config(&cfg);
         cx.ev(format!("config {}", cname));
-        let mut gen = Gen { n: 0 };
+        let mut gen = Gen::new(0);
         let inputs = gen_inputs(cx, &mut gen, 6, false, true);
         let mut b = ZipOffsetBlobStoreBuilder::with_config(c).expect("preset config is valid");
         for d in &inputs {
@@ -1641,7 +2349,7 @@ impl Scenario for SimpleZipBulk {
                 }
             }
         };
-        let mut gen = Gen { n: 0 };
+        let mut gen = Gen::new(0);
         let inputs = gen_inputs(cx, &mut gen, 8, true, true);
         let st = match SimpleZipBlobStore::build_from(&inputs, &config) {
             Ok(s) => s,
@@ -1695,7 +2403,7 @@ impl Scenario for MixedLenBulk {
     }
     fn run(&self, cx: &mut Run) {
         let cfg = cx.src.chan("cfg");
-        let mut gen = Gen { n: 0 };
+        let mut gen = Gen::new(0);
         let inputs = gen_inputs(cx, &mut gen, 10, false, true);
         // length histogram: when the most common length is not unique, build_from's choice
         // depends on hash iteration order; name the length explicitly then (same code path)
@@ -1752,7 +2460,7 @@ impl Scenario for TrieBuilder {
         let sorted = cfg.below(2) == 0;
         c.enable_batch_optimization = sorted;
         cx.ev(format!("config {} batch_optimization={}", TRIE_PRESET[preset as usize], sorted));
-        let mut gen = Gen { n: 0 };
+        let mut gen = Gen::new(0);
         let inputs = gen_inputs(cx, &mut gen, 8, false, true);
         let dup = cfg.below(4) == 0;
         let keys: Vec<Vec<u8>> = (0..inputs.len()).map(|i| if dup { KEYS[(i * 3) % 4].to_vec() } else { KEYS[(i * 7 + 3) % KEYS.len()].to_vec() }).collect();
@@ -1844,7 +2552,8 @@ impl Scenario for OffsetIndex {
             0 => SortedUintVecConfig::default(),
             1 => SortedUintVecConfig::performance_optimized(),
             2 => SortedUintVecConfig::memory_optimized(),
-            _ => SortedUintVecConfig { log2_block_units: 4 + cfg.below(5) as u8, offset_width: *cfg.pick(&[8u8, 12, 16, 20, 32]), sample_width: *cfg.pick(&[16u8, 24, 32, 40, 64]), use_simd: cfg.below(2) == 0 },
+            // every width the configuration accepts, not only whole bytes: 9, 13, 31 / 17, 33, 57, 63 put fields across byte boundaries
+            _ => SortedUintVecConfig { log2_block_units: 4 + cfg.below(5) as u8, offset_width: *cfg.pick(&[8u8, 12, 16, 20, 32, 9, 13, 25, 31]), sample_width: *cfg.pick(&[16u8, 24, 32, 40, 64, 17, 33, 57, 63]), use_simd: cfg.below(2) == 0 },
         };
         cx.ev(format!("config log2_block_units={} offset_width={} sample_width={} simd={}", c.log2_block_units, c.offset_width, c.sample_width, c.use_simd));
         let n = match cfg.below(4) {
@@ -1939,8 +2648,9 @@ fn main() {
     let mut spec = CheckSpec::new(
         "C03",
         "exploration",
-        "seeded histories of put/put_batch/remove/get/size/contains/get_batch/restart (and put_with_key/get_by_key/get_by_prefix/finalize for the trie store) over records that are empty, tiny, \
-         equal-length, highly compressible, incompressible and text, against a BTreeMap model audited after every step; bulk-built stores checked record by record; \
+        "seeded histories of put/put_batch/remove/remove_batch/get/size/contains/get_batch/restart/reconfiguration calls/clone as second handle/iteration (and put_with_key/get_by_key/get_by_prefix/\
+         contains_key/keys_with_prefix/finalize for the trie store) over records that are empty, tiny, equal-length, highly compressible, incompressible, text, or derived from an earlier record \
+         (same again, one byte changed, prefix, extension), against a BTreeMap model audited after every step; bulk-built stores (up to 513 records) checked record by record; \
          non-trivial = at least 3 operations of which one put was acknowledged (bulk: at least one input record); distinct = distinct hash of the event trace plus (target, op-bigram, record-class) cells",
     );
     spec.assumptions = vec![
@@ -1948,6 +2658,9 @@ fn main() {
         "an id may be handed out again once its record has been removed (the statement only forbids reuse for a different live record)".into(),
         "during a call in which an injected fault fired the store may fail or report absence; it may not return wrong bytes, and later fault-free calls are checked strictly".into(),
         "serde (JSON) round trip counts as save -> load for MemoryBlobStore, ZstdBlobStore<MemoryBlobStore>, ZeroLengthBlobStore".into(),
+        "the count remove_batch returns is not checked; when it differs from the number of live ids in the batch, or the batch fails, those records may be live or gone (what is served must still be right)".into(),
+        "configuration and maintenance calls (cache on/off, write strategy, flush, prefetch, reserve, train / build_tree, optimize, validate) must leave every record as it was; MemoryBlobStore::clear removes all records; after DictZipBlobStore::load_dictionary earlier records may be gone, later ones are checked strictly".into(),
+        "iteration (iter_blobs / iter_blobs_vec) is only required to yield right bytes for live ids, not to be complete".into(),
     ];
     spec.components = vec![
         ("blob_store::{Memory,Plain,Zstd,Huffman,Rans,Dictionary,Cached,ZeroLength,SimpleZip,MixedLen,ZipOffset(+Builder),NestLoudsTrie(+Builder)}BlobStore, SortedUintVec, DictZipBlobStore", "real"),
@@ -1963,6 +2676,7 @@ fn main() {
         (Kind::ZstdPlain, "zstd_plain/clean", 600),
         (Kind::HuffmanUntrained, "huffman_memory/untrained", 3000),
         (Kind::HuffmanTrained, "huffman_memory/trained", 1200),
+        (Kind::HuffmanRetrained, "huffman_memory/retrained", 1500),
         (Kind::Rans, "rans_memory/clean", 3000),
         (Kind::Dictionary, "dictionary_memory/clean", 2000),
         (Kind::Cached(0), "cached_memory/write_through", 3000),
@@ -1993,6 +2707,7 @@ fn main() {
     spec.scenarios.push(Box::new(Trie { preset: 2, skip_len: true }));
     spec.scenarios.push(Box::new(TrieBuilder));
     spec.scenarios.push(Box::new(ZipOffsetBulk));
+    spec.scenarios.push(Box::new(ZipOffsetBatchBuilder));
     spec.scenarios.push(Box::new(ZipOffsetSaveLoad { hard: false }));
     spec.scenarios.push(Box::new(ZipOffsetSaveLoad { hard: true }));
     spec.scenarios.push(Box::new(SimpleZipBulk));
